@@ -190,7 +190,18 @@ def make_inputs(input_list, repeat=None):
     return mock_input
 
 
-class PrintingStringIO(StringIO):
+class CapturingStringIO(StringIO):
+    """ The buffer that stands in for stdout while student code runs. Student
+    code may close it: what was written until then is kept. """
+    written_before_closing = ""
+
+    def close(self):
+        if not self.closed:
+            self.written_before_closing = self.getvalue()
+        super().close()
+
+
+class PrintingStringIO(CapturingStringIO):
     _ORIGINAL_STDOUT = sys.stdout
 
     def __init__(self, stdout=None, *args, **kwargs):
